@@ -54,12 +54,25 @@ impl Prop for C16 {
     }
     fn budget(&self, tier: Tier) -> u64 {
         match tier {
-            Tier::Quick => 150_000,
-            Tier::Thorough => 5_000_000,
+            Tier::Quick => 500_000,
+            Tier::Thorough => 8_000_000,
         }
     }
     fn required_labels(&self) -> Vec<&'static str> {
         vec!["refuse_eid", "eid_boundary_ok", "refuse_entries", "entries7_ok", "refuse_types", "types30_ok", "refuse_format", "refuse_oversize", "at_frame_limit", "exact_capacity"]
+    }
+    fn enumerate(&self, tier: Tier, shard: usize, nshards: usize, f: &mut dyn FnMut(Case)) {
+        let mut idx = 0usize;
+        super::enumer::for_each_enc_case(tier, true, true, true, &mut |env, call| {
+            idx += 1;
+            if idx % nshards == shard {
+                let extra = (idx % 5) as u16;
+                f(Case { enc: EncCase { env, call }, extra, poison_a: 0xA5, poison_b: 0x3C });
+            }
+        });
+    }
+    fn enumerated_desc(&self, _tier: Tier) -> Option<String> {
+        Some(format!("{}; including the documented-invalid values (EID 0x00/0xFF for all 4 operations, 8-10 routing entries, 31-34 message types, vendor formats 2..255) and bodies up to 262 bytes", ENC_ENUM_DESC))
     }
     fn run(&self, case: &Case) -> CaseResult {
         let mut r = CaseResult::default();
